@@ -38,12 +38,22 @@ func H19_keepalive() {
 	if ka == 0 {
 		K = 30
 	}
-	p := vrtConnectPkt([]byte("c"), true)
+	// the connection under test may resume a stored session whose previous connection
+	// (same CONNECT) ended with DISCONNECT
+	resumed := vrtBool("resumed_after_disconnect")
+	p := vrtConnectPkt([]byte("c"), !resumed)
 	p.KeepAlive = ka
 	p.CFlags |= 4 // will "gone"/"x", QoS 0
 	p.WillTopic, p.WillMsg = []byte("gone"), []byte("x")
+	if resumed {
+		c0, _ := b.connect(p)
+		vrtExchange(c0, &specPkt{Typ: specDISCONNECT})
+		c0.peerClose()
+		vrtQuiesce()
+		vrtAssert("C19.harness_no_will_after_disconnect", len(wit.peerTake()) == 0)
+	}
 	c, ack := b.connect(p)
-	vrtAssert("C19.harness_connack", vrtIsConnack(ack, false, 0))
+	vrtAssert("C19.harness_connack", vrtIsConnack(ack, resumed, 0))
 	vrtCheckArmed(c, K, "after_connect")
 	now := start
 	steps := vrtBound("N19steps", 3)
